@@ -299,8 +299,11 @@ def main(tier, seed):
              'types, flags, defaults, notes, aliases, reference kind/inline/name/actions, added columns/indexes/items, removed '
              'indexes, group/project/sticky edits, allow_properties flips), with renderings evaluated before and between '
              'edits; non-trivial: >=2 effective edits; distinct by (spec, edits, final content) hash',
-        explanation='The value model renders from the content alone (theorem render_reads_content_only is definitional there; '
-                    'rename theorems show the new name at every dependent site). The real code is tied to it after every edit '
+        explanation='The value model renders from the content alone (that a rendering equals that of a freshly built database is '
+                    'definitional there). Theorems fk_shows_renamed_target / fk_shows_renamed_source / fk_shows_renamed_column / '
+                    'table_shows_new_name (C10.lean): after an in-place rename of a table or column the DDL of every standalone '
+                    'reference to it and the table statement itself, read back by the proved reader of C03/C04, show the new name. '
+                    'The real code is tied to the model after every edit '
                     'sequence: db.sql/db.dbml equal the model rendering of the content read off the live objects; model-free '
                     'oracle: all database and element renderings equal those of a database freshly built with the final content.',
         assumptions=['content is read off live objects through public attributes (observe.dump_db)'],
